@@ -393,6 +393,11 @@ class Report:
         lines = []
         for hid, (n, k, what) in sorted(self.known_hits.items()):
             lines.append(f"KNOWN-FINDING: property={self.pid} {hid}: {k.get('summary', what)} ({n} case(s) this run)")
+        # every listed (open) finding of this property gets its line, also when this run's inputs did not meet it
+        for k in self.known:
+            if k.get("id") not in self.known_hits and str(k.get("status", "open")).startswith("open"):
+                lines.append(f"KNOWN-FINDING: property={self.pid} {k.get('id')}: {k.get('summary', '')} "
+                             f"(listed; not met by this run's inputs)")
         # a concrete failing input makes the companion "broken obligation" reports redundant only
         # if they are about the same stream; keep all, concrete ones first
         self.violations.sort(key=lambda v: v["no_input"])
